@@ -394,4 +394,246 @@ theorem index_dist_eq_flatten {S : Scanners} {layers : List FSLayer} (hs : DistS
         exact Or.inr (Or.inr (hall id es' this e h2))
     · subst hwh; simp [whRep] at h1
 
+/-! ### the `Distributions` map of the finished report -/
+
+theorem mem_setDists {ds : List Dist} {m : List (String × Dist)} {k : String} {v : Dist}
+    (h : (k, v) ∈ setDists ds m) : (k, v) ∈ m ∨ (v ∈ ds ∧ v.id = k) := by
+  unfold setDists at h
+  induction ds generalizing m with
+  | nil => exact Or.inl h
+  | cons d ds ih =>
+    simp only [List.foldl_cons] at h
+    rcases ih h with h1 | ⟨h1, h2⟩
+    · rcases mem_aset h1 with ⟨hk, hv⟩ | h3
+      · right; exact ⟨by rw [hv]; exact List.mem_cons_self, by rw [hv, hk]⟩
+      · exact Or.inl h3
+    · right; exact ⟨List.mem_cons_of_mem _ h1, h2⟩
+
+/-- the linux coalescer's `Distributions`: the first distribution of every layer that has one -/
+theorem linuxRep_dists (arts : List Layer) (k : String) :
+    (aget k (linuxRep arts).dists).isSome ↔ ∃ a ∈ arts, ∃ d, a.dists.head? = some d ∧ d.id = k := by
+  have hok := linuxRep_ok arts
+  unfold linuxCoalesce at hok
+  obtain ⟨r, h1, _, h3, _, _⟩ := linuxFill_inv (S := False) (arts := arts) (dbEntries (linuxDbs arts))
+    { dists := setDists ((distSlots arts).filterMap id) [] }
+    linux_entries_ok (inv_of_nil rfl rfl)
+    (fun x hx => setDists_mem (List.mem_filterMap.2 ⟨some x, hx, rfl⟩))
+  simp only at hok
+  rw [hok] at h1; cases h1
+  rw [h3]
+  constructor
+  · intro hs
+    cases hg : aget k (setDists ((distSlots arts).filterMap id) []) with
+    | none => rw [hg] at hs; simp at hs
+    | some v =>
+      rcases mem_setDists (mem_of_aget hg) with h | ⟨h, hid⟩
+      · simp at h
+      · obtain ⟨o, ho, hov⟩ := List.mem_filterMap.1 h
+        simp only [id] at hov; subst hov
+        obtain ⟨a, ha, hae⟩ := List.mem_map.1 ho
+        exact ⟨a, ha, v, hae, hid⟩
+  · rintro ⟨a, ha, d, hd, hid⟩
+    rw [← hid]
+    apply setDists_mem
+    exact List.mem_filterMap.2 ⟨some d, List.mem_map.2 ⟨a, ha, hd⟩, rfl⟩
+
+theorem rhelWalk_dists (todo : List Layer) (w : RhelWalk) (k : String) :
+    (aget k (rhelWalk todo w).dists).isSome ↔
+      (aget k w.dists).isSome ∨ ∃ a ∈ todo, ∃ d, a.dists.head? = some d ∧ d.id = k := by
+  induction todo generalizing w with
+  | nil => simp [rhelWalk]
+  | cons a rest ih =>
+    simp only [rhelWalk]
+    rw [ih]
+    cases hd : a.dists with
+    | nil =>
+      simp only [List.head?_nil, List.mem_cons]
+      constructor
+      · rintro (h | ⟨b, hb, d, h1, h2⟩)
+        · exact Or.inl h
+        · exact Or.inr ⟨b, Or.inr hb, d, h1, h2⟩
+      · rintro (h | ⟨b, hb, d, h1, h2⟩)
+        · exact Or.inl h
+        · rcases hb with hb | hb
+          · subst hb; rw [hd] at h1; simp at h1
+          · exact Or.inr ⟨b, hb, d, h1, h2⟩
+    | cons x xs =>
+      simp only [List.mem_cons]
+      constructor
+      · rintro (h | ⟨b, hb, d, h1, h2⟩)
+        · rw [aget_aset] at h
+          by_cases hk : x.id = k
+          · exact Or.inr ⟨a, Or.inl rfl, x, by simp [hd], hk⟩
+          · simp only [hk, if_false] at h; exact Or.inl h
+        · exact Or.inr ⟨b, Or.inr hb, d, h1, h2⟩
+      · rintro (h | ⟨b, hb, d, h1, h2⟩)
+        · exact Or.inl (aget_aset_isSome h)
+        · rcases hb with hb | hb
+          · subst hb
+            rw [hd] at h1; simp at h1; subst h1
+            left; rw [← h2]; simp [aget_aset_self]
+          · exact Or.inr ⟨b, hb, d, h1, h2⟩
+
+theorem rhelFinalPkgs_dists (envs : List ((String × String) × Env)) (later : List Layer) (pkgs : List Pkg) (ir r : Report)
+    (h : rhelFinalPkgs envs later pkgs ir = .ok r) : r.dists = ir.dists := by
+  induction pkgs generalizing ir with
+  | nil => simp only [rhelFinalPkgs, Except.ok.injEq] at h; subst h; rfl
+  | cons q rest ih =>
+    simp only [rhelFinalPkgs] at h
+    split at h
+    · exact ih ir h
+    · split at h
+      · split at h
+        · simp at h
+        · have := ih _ h; exact this
+      · exact ih ir h
+
+theorem rhelFinal_dists (envs : List ((String × String) × Env)) (todo : List Layer) (ir r : Report)
+    (h : rhelFinal envs todo ir = .ok r) : r.dists = ir.dists := by
+  induction todo generalizing ir with
+  | nil => simp only [rhelFinal, Except.ok.injEq] at h; subst h; rfl
+  | cons a rest ih =>
+    simp only [rhelFinal] at h
+    cases hx : rhelFinalPkgs envs rest a.pkgs ir with
+    | error f => simp [hx] at h
+    | ok ir' =>
+      simp only [hx] at h
+      rw [ih ir' h, rhelFinalPkgs_dists envs rest a.pkgs ir ir' hx]
+
+theorem firstDist_head {arts : List Layer} {d : Dist} (h : firstDist arts = some d) :
+    ∃ a ∈ arts, a.dists.head? = some d := by
+  induction arts with
+  | nil => simp [firstDist] at h
+  | cons a rest ih =>
+    cases hd : a.dists with
+    | nil =>
+      simp only [firstDist, hd] at h
+      obtain ⟨b, hb, hbd⟩ := ih h
+      exact ⟨b, List.mem_cons_of_mem _ hb, hbd⟩
+    | cons x xs =>
+      simp only [firstDist, hd, Option.some.injEq] at h
+      exact ⟨a, List.mem_cons_self, by simp [hd, h]⟩
+
+/-- the rhel coalescer's `Distributions`: the first distribution of every layer that has one -/
+theorem rhelRep_dists (arts0 : List Layer) (k : String) :
+    (aget k (rhelRep arts0).dists).isSome ↔ ∃ a ∈ arts0, ∃ d, a.dists.head? = some d ∧ d.id = k := by
+  have hok := rhelRep_ok arts0
+  unfold rhelCoalesce at hok
+  simp only at hok
+  rw [rhelFinal_dists _ _ _ _ hok]
+  simp only
+  rw [rhelWalk_dists]
+  -- heads of the shared list = heads of the given list
+  have hheads : (∃ a ∈ rhelShare arts0, ∃ d, a.dists.head? = some d ∧ d.id = k) ↔
+      ∃ a ∈ arts0, ∃ d, a.dists.head? = some d ∧ d.id = k := by
+    have hcore := rhelShare_core arts0
+    constructor
+    · rintro ⟨a, ha, d, h1, h2⟩
+      obtain ⟨a0, ha0, hc⟩ := mem_of_core_eq hcore ha
+      have : a0.dists = a.dists := by have := congrArg (fun c => c.2.2) hc; simpa [core] using this
+      exact ⟨a0, ha0, d, by rw [this]; exact h1, h2⟩
+    · rintro ⟨a, ha, d, h1, h2⟩
+      obtain ⟨a0, ha0, hc⟩ := mem_of_core_eq hcore.symm ha
+      have : a0.dists = a.dists := by have := congrArg (fun c => c.2.2) hc; simpa [core] using this
+      exact ⟨a0, ha0, d, by rw [this]; exact h1, h2⟩
+  rw [hheads]
+  constructor
+  · rintro (h | h)
+    · unfold rhelInit at h
+      cases hf : firstDist (rhelShare arts0) with
+      | none => simp [hf, aget] at h
+      | some d =>
+        simp only [hf] at h
+        rw [aget_cons] at h
+        by_cases hk : d.id = k
+        · obtain ⟨a, ha, had⟩ := firstDist_head hf
+          exact hheads.1 ⟨a, ha, d, had, hk⟩
+        · simp [hk, aget] at h
+    · exact h
+  · intro h; exact Or.inr h
+
+theorem fileRep_dists_nil (E : FileEco) (layers : List FSLayer) : (fileRep E layers).dists = [] := by
+  unfold fileRep
+  by_cases hg : E.gobin = true
+  · simp only [hg, if_true]
+    exact (gobinFold_inv (S := False) _ _ {} (fun _ h => h) (fun h => h.elim) (inv_of_nil rfl rfl)).2.1
+  · simp only [hg, Bool.false_eq_true, if_false]
+    exact (langFold_inv (S := False) _ _ {} (fun _ h => h) (inv_of_nil rfl rfl)).2.1
+
+/-- under stability an OS ecosystem's layers show a distribution exactly when the flattened image does, and the same one -/
+theorem heads_eq_image {S : Scanners} {layers : List FSLayer} {rh : Bool} {d : String} (hs : distStableAt S layers rh d)
+    (k : String) :
+    (∃ a ∈ layers.map (osArts S rh d), ∃ D, a.dists.head? = some D ∧ D.id = k) ↔
+      ∃ D, imageDist S rh d layers = some D ∧ D.id = k := by
+  obtain ⟨od, hall, himg⟩ := distStable_spec hs
+  constructor
+  · rintro ⟨a, ha, D, h1, h2⟩
+    obtain ⟨l, hl, hla⟩ := List.mem_map.1 ha
+    subst hla
+    have hD : distOf S rh d l = some D := by simpa [osArts, head_toList] using h1
+    have hany : layers.any (fun l => (distOf S rh d l).isSome) = true := List.any_eq_true.2 ⟨l, hl, by simp [hD]⟩
+    rcases hall l hl with h | h
+    · rw [hD] at h; simp at h
+    · exact ⟨D, by rw [himg, hany, ← h, hD]; rfl, h2⟩
+  · rintro ⟨D, h1, h2⟩
+    rw [himg] at h1
+    by_cases hany : layers.any (fun l => (distOf S rh d l).isSome) = true
+    · simp only [hany, if_true] at h1
+      obtain ⟨l, hl, hsome⟩ := List.any_eq_true.1 hany
+      rcases hall l hl with h | h
+      · rw [h] at hsome; simp at hsome
+      · refine ⟨osArts S rh d l, List.mem_map.2 ⟨l, hl, rfl⟩, D, ?_, h2⟩
+        simp only [osArts, head_toList]; rw [h, h1]
+    · simp [hany] at h1
+
+/-- on a DistStable stack the finished report's `Distributions` are exactly the distributions the OS
+    ecosystems' scanners find on the flattened image -/
+theorem index_dists_eq_flatten {S : Scanners} {layers : List FSLayer} (hs : DistStable S layers)
+    {r : Report} (hr : indexModel S layers = some r) (k : String) :
+    (aget k r.dists).isSome ↔
+      (∃ d ∈ S.osDbs, ∃ D, imageDist S false d layers = some D ∧ D.id = k) ∨
+      (∃ d ∈ S.rhelDbs, ∃ D, imageDist S true d layers = some D ∧ D.id = k) := by
+  rw [indexModel_eq] at hr
+  obtain ⟨r', hr', _, hd, _⟩ := resolve_ok (layers.map (·.hash)) (merged S layers) (merged_inv S layers)
+  rw [hr] at hr'; cases hr'
+  rw [hd]
+  obtain ⟨_, _, h3, _, _⟩ := mergeSR_fields {} ((dbReps S layers ++ fileReps S layers) ++ [whRep layers])
+  unfold merged
+  rw [h3]
+  constructor
+  · intro hsome
+    rcases asetAll_get (·.dists) ((dbReps S layers ++ fileReps S layers) ++ [whRep layers]) ({} : Report).dists k with
+      ⟨rr, hrr, v, hv, _⟩ | ⟨_, hnone⟩
+    · rcases reps_cases hrr with hos | ⟨E, _, hE⟩ | hwh
+      · rcases List.mem_append.1 hos with h | h
+        · obtain ⟨d, hd', hre⟩ := List.mem_map.1 h
+          subst hre
+          have := (linuxRep_dists _ k).1 (aget_isSome_of_mem hv)
+          exact Or.inl ⟨d, hd', (heads_eq_image (hs.1 d hd') k).1 this⟩
+        · obtain ⟨d, hd', hre⟩ := List.mem_map.1 h
+          subst hre
+          have := (rhelRep_dists _ k).1 (aget_isSome_of_mem hv)
+          exact Or.inr ⟨d, hd', (heads_eq_image (hs.2 d hd') k).1 this⟩
+      · subst hE; rw [fileRep_dists_nil] at hv; simp at hv
+      · subst hwh; simp [whRep] at hv
+    · rw [hnone] at hsome; simp [aget] at hsome
+  · intro h
+    -- some report has the key, so the fold has it
+    have key : ∀ rr ∈ (dbReps S layers ++ fileReps S layers) ++ [whRep layers], (aget k rr.dists).isSome →
+        (aget k (asetAll (·.dists) ((dbReps S layers ++ fileReps S layers) ++ [whRep layers]) ({} : Report).dists)).isSome := by
+      intro rr hrr hs'
+      rcases asetAll_get (·.dists) ((dbReps S layers ++ fileReps S layers) ++ [whRep layers]) ({} : Report).dists k with
+        ⟨_, _, v, _, hv⟩ | ⟨hno, _⟩
+      · rw [hv]; rfl
+      · cases hg : aget k rr.dists with
+        | none => rw [hg] at hs'; simp at hs'
+        | some v => exact absurd (mem_of_aget hg) (hno rr hrr v)
+    rcases h with ⟨d, hd', hD⟩ | ⟨d, hd', hD⟩
+    · apply key (linuxRep (layers.map (osArts S false d)))
+        (dbRep_mem_reps (List.mem_append_left _ (List.mem_map.2 ⟨d, hd', rfl⟩)))
+      exact (linuxRep_dists _ k).2 ((heads_eq_image (hs.1 d hd') k).2 hD)
+    · apply key (rhelRep (layers.map (osArts S true d)))
+        (dbRep_mem_reps (List.mem_append_right _ (List.mem_map.2 ⟨d, hd', rfl⟩)))
+      exact (rhelRep_dists _ k).2 ((heads_eq_image (hs.2 d hd') k).2 hD)
+
 end ClairModel.LayerFS
